@@ -400,6 +400,55 @@ fn unit() -> Unit {
     )
 }
 
+/// 1500 ids in one request, the malformed one at various positions: rejected as a whole.
+fn large_batch_unit() -> Unit {
+    let f: ScenFn = scen!(|cx| {
+        const N: usize = 1500;
+        let a = cx.api.clone();
+        must!(cx, "setup:create-topic", { let a = a.clone(); async move { a.create_topic(T0).await } });
+        must!(cx, "setup:create-sub", { let a = a.clone(); async move { a.create_sub(S0, T0, 10, None).await } });
+        must!(cx, "setup:publish", { let a = a.clone(); async move { a.publish(T0, (0..N).map(|i| (format!("{}", i).into_bytes(), vec![])).collect()).await } });
+        let held = must!(cx, "setup:pull", { let a = a.clone(); async move { a.pull(S0, 2000, true).await } });
+        if held.len() != N {
+            return ScenarioOut::viol("setup/pull", format!("pulled {} of {}", held.len(), N));
+        }
+        let rpc = ["ack", "modify", "stream-ack", "stream-modify"][cx.choose("rpc", 4)];
+        let pos = [0usize, 999, 1000, 1001, 1200, 1499][cx.choose("bad-position", 6)];
+        let bad = ["x", "", "-1"][cx.choose("bad-id", 3)];
+        let mut ids: Vec<String> = held.iter().map(|m| m.ack_id.clone()).collect();
+        ids[pos] = bad.to_string();
+        let st = tryv!(cx.settle_opt("client:request", { let a = a.clone(); async move {
+            match rpc {
+                "ack" => res(&a.ack(S0, ids).await),
+                "modify" => res(&a.modify(S0, ids, 30).await),
+                _ => {
+                    let (tx, r) = a.streaming_pull(first_stream_req(S0, 10)).await;
+                    let req = if rpc == "stream-ack" { StreamingPullRequest { ack_ids: ids, ..Default::default() } } else { StreamingPullRequest { modify_deadline_seconds: vec![30; ids.len()], modify_deadline_ack_ids: ids, ..Default::default() } };
+                    let _ = tx.send(req).await;
+                    drop(tx);
+                    drain_stream(r).await.0
+                }
+            }
+        } }).await).unwrap_or_else(|| "OPEN".to_string());
+        let case = format!("{} with {} ids, {:?} at position {}", rpc, N, bad, pos);
+        if st != "InvalidArgument" {
+            return ScenarioOut::viol("malformed-not-INVALID_ARGUMENT", format!("{} was answered with {}", case, st));
+        }
+        let stats = tryv!(cx.stats(S0).await).unwrap();
+        if stats.outstanding != N || stats.backlog != 0 {
+            return ScenarioOut::viol("rejected-request-changed-state", format!("{} was rejected but the subscription now has backlog={} outstanding={} (was 0 / {})", case, stats.backlog, stats.outstanding, N));
+        }
+        // none of the deadlines moved: everything is back after the original deadline
+        tryv!(cx.advance_to_ms(10_000 + SLACK_MS).await);
+        let stats = tryv!(cx.stats(S0).await).unwrap();
+        if stats.backlog != N {
+            return ScenarioOut::viol("rejected-request-changed-state", format!("{} was rejected but only {} of {} deliveries expired at their original deadline", case, stats.backlog, N));
+        }
+        ScenarioOut { sample: Some(case), ..ScenarioOut::ok(format!("{}@{}", rpc, pos)) }
+    });
+    explore_unit("input/large-batches", "Acknowledge / ModifyAckDeadline / StreamingPull control messages carrying 1500 ids with one malformed id at position 0, 999, 1000, 1001, 1200 or 1499: INVALID_ARGUMENT and not a single delivery acknowledged or moved", Bounds::new(0), ExecCfg { points_on: false, max_steps: 200_000, ..Default::default() }, f)
+}
+
 pub fn units(_thorough: bool) -> Vec<Unit> {
-    vec![unit()]
+    vec![unit(), large_batch_unit()]
 }
